@@ -279,3 +279,74 @@ def filter_reaches_pipeline(ctx, P, crate, fam, rule):
                   "a call of process_packet in the worker loop passes %s as the filter: packets handled at that call site (e.g. the follow-up packets of a batch) "
                   "are analysed unfiltered" % T.pp(T.strip(src))[:60], ctx.loc(wl, blk))
     ctx.floor(rule, "%s: process_packet call sites in worker_loop" % fam, n, 1)
+
+
+def capture_loop_exits(ctx, P, rule):
+    """The capture loops of the analyzers (process_sequential / process_parallel / process_with) end only when the packet source is
+    exhausted, on the cancel signal, or when nobody receives results: a packet that the analyzer rejects with an error is logged
+    and skipped - it never ends the analysis of the traffic that follows it."""
+    from ..engine import cfg as C
+    n = 0
+    for b in P.bodies.values():
+        if b.name not in ("process_sequential", "process_parallel", "process_with") or b.kind != "AssocFn" or not b.blocks:
+            continue
+        loops = C.loops(b)
+        if not loops:
+            continue
+        S = T.Slicer(b, P)
+        L = max(loops.items(), key=lambda kv: len(kv[1]))[1]
+        bad = []
+        m = 0
+        for x in sorted(L):
+            t = b.blocks[x]["t"]
+            outs = [y for y in b.succs(x) if y not in L and b.blocks[y]["t"]["k"] != "unreachable"]
+            if t["k"] == "return":
+                outs = [None]
+            for y in outs:
+                conds = list(Q.canon_conds(P, T.dom_conds(b, S, x)))
+                if y is not None:
+                    be = T.branch_edges(b, S, x)
+                    if be is not None and y in be[1]:
+                        conds += Q.canon_cond(P, be[0], be[1][y], x)
+                m += 1
+                why = None
+                for c in conds:
+                    if c[0] in ("variant", "variant_in") and c[3] is True and T.has_call(c[1], "call_mut") and (c[2] == "None" or (isinstance(c[2], tuple) and "None" in c[2])):
+                        why = "source exhausted"
+                    if c[0] == "bool" and T.has_call(c[1], "::load") and c[2] is True:
+                        why = "cancel / shutdown signal"
+                    if c[0] == "bool" and T.has_call(c[1], "Sender::<T>::send") and ((T.has_call(c[1], "::is_err") and c[2] is True) or (T.has_call(c[1], "::is_ok") and c[2] is False)):
+                        why = "result receiver gone"
+                    if c[0] == "variant" and T.has_call(c[1], "Sender::<T>::send") and ((c[2] == "Err") == c[3]):
+                        why = "result receiver gone"
+                if why is None:
+                    bad.append((x, [c[0] + ":" + (T.pp(c[1])[:60] if isinstance(c[1], tuple) else str(c[1])) + "=" + str(c[2] if c[0] != "cmp" else c[4]) for c in conds][-3:]))
+        n += 1
+        who = "%s:%s" % (b.crate.replace("huginn_net", "hn"), b.name)
+        ctx.check(not bad, rule, who + ":exits", "%d ways out of the capture loop: source exhausted / cancel / receiver gone" % m,
+                  "the capture loop of %s can end for another reason (%s): one packet the analyzer rejects (bad flags, fragment, non-TCP) ends the analysis, so whether a "
+                  "connection is reported depends on what other traffic preceded it" % (b.name, bad[:2]), ctx.loc(b, bad[0][0]) if bad else ctx.loc(b))
+    ctx.floor(rule, "capture loops", n, 6)
+
+
+def fifo_batch(ctx, P, crate, fam, rule):
+    """packets are analysed in the order they were dispatched: the worker loop applies no reordering operation to what it received,
+    and a collected batch is consumed front to back (drain(..) / forward iteration)"""
+    wl = [b for b in P.method("WorkerPool", "worker_loop") if b.crate == crate]
+    if len(wl) != 1:
+        ctx.cannot(rule, fam + ":worker_loop:order", "worker_loop not unique in %s" % crate)
+        return
+    wl = wl[0]
+    S = T.Slicer(wl, P)
+    bad = [t for _, t in Q.calls(wl, ["::pop", "::rev", "swap_remove", "sort", "::reverse", "Vec::<T, A>::remove", "::last", "next_back", "::rotate", "::swap"])]
+    ctx.check(not bad, rule, fam + ":worker_loop:order", "no reordering operation on received packets",
+              "worker_loop reorders queued packets via %s: segments of one connection that are collected into the same batch are analysed out of order "
+              "(a continuation before the segment that opens its flow)" % [T.short(callee_of(t)) for t in bad], ctx.loc(wl))
+    if fam in ("http", "tls"):
+        okd = False
+        for blk, t in Q.calls(wl, "::drain"):
+            a = Q.call_args(wl, S, blk, t)
+            r = T.strip(a[1]) if len(a) > 1 else None
+            if r and r[0] in ("agg", "const"):
+                okd = True
+        ctx.check(okd, rule, fam + ":worker_loop:batch-drained", "the batch is consumed front to back by drain(..)", "the batch is not consumed front-to-back by drain(..)", ctx.loc(wl))
